@@ -40,6 +40,7 @@ class Ctx:
         self.E: List[Any] = []
         self.H: Dict[str, List[Any]] = {}
         self.gen_log: List[Any] = []
+        self.added_humans: Dict[str, str] = {}  # human-driven vehicles a co-simulation client added mid-run: vehicle id -> schedule id
         self.injected_now: List[str] = []  # request ids a co-simulation client added before this step (no add event exists for them)
         self.states: List[Any] = []
         self.violations: List[Dict[str, Any]] = []
@@ -238,6 +239,27 @@ def cosim_ops(ctx: Ctx, rp, k: int):
         if hasattr(v.vehicle_state, "route") or type(v.vehicle_state).__name__ in ("ChargeQueueing", "ChargingStation", "ChargingBase", "ReserveBase"):
             ctx.count("cosim_change_membership_while_engaged")
         return res.unwrap()
+    if kind == "add_human_vehicle":
+        # a driver joins mid-run: a vehicle-file row with a schedule of the scenario's table, built by Vehicle.from_row and
+        # added through simulation_state_ops.add_entity (possibly while that shift is already running)
+        from nrel.hive.model.vehicle.vehicle import Vehicle
+        from nrel.hive.state.simulation_state import simulation_state_ops as sso
+
+        humans = [v for v in ctx.spec["vehicles"] if v.get("schedule")]
+        if not humans:
+            return rp
+        proto = r.choice(humans)
+        sid = r.choice([s_["id"] for s_ in ctx.spec["schedules"]]) if r.random() < 0.5 else proto["schedule"]
+        vid = f"cosim_h{k}"
+        row = {"vehicle_id": vid, "lat": str(proto["lat"]), "lon": str(proto["lon"]), "mechatronics_id": proto["mech"], "initial_soc": str(r.choice([0.5, 0.9])), "schedule_id": sid, "home_base_id": proto["home_base"]}
+        try:
+            newv = Vehicle.from_row(row, rp.s.road_network, rp.e)
+            s2 = sso.add_entity(rp.s, newv)
+        except Exception:
+            return rp
+        ctx.count("cosim_add_human_vehicle")
+        ctx.added_humans[vid] = sid
+        return rp._replace(s=s2)
     if kind == "add_vehicle":
         # a new (idle) vehicle joins the fleet mid-run, placed where an existing one stands or at a request's origin
         import dataclasses
